@@ -159,6 +159,34 @@ fn plan_only_block<T: Real>(pk: PK, lo: usize, hi: usize, rep: &mut Report, cens
 }
 
 /// one planner, every n in 0..=nmax in ascending or descending order, both directions
+
+/// Huge lengths on ONE planner with drops in between: plan, drop every handle, plan the same request again, plan the
+/// other direction, plan a multiple. len()/direction must echo every request and nothing may panic (caches that hold
+/// large instances differently from small ones only show here).
+fn huge_replan<T: Real>(pk: PK, n: usize, rep: &mut Report) {
+    let mut pl = match AnyPlanner::<T>::new(pk) {
+        Some(p) => p,
+        None => return,
+    };
+    let steps: Vec<(usize, FftDirection)> = vec![(n, FftDirection::Forward), (n, FftDirection::Forward), (n, FftDirection::Inverse), (n / 2, FftDirection::Forward), (n, FftDirection::Inverse), (n, FftDirection::Forward)];
+    for (i, &(m, d)) in steps.iter().enumerate() {
+        let k = format!("{}|history=huge-replan-after-drop|step={}", key(pk, T::NAME, d, m, "huge_replan"), i);
+        rep.evaluations += 1;
+        rep.transitions += 1;
+        rep.distinct_nontrivial += 1;
+        match plan_catch(&mut pl, m, d) {
+            Err(msg) => rep.violate(k, format!("step {} of [plan {n} fwd, drop, plan {n} fwd, drop, plan {n} inv, drop, plan {h} fwd, drop, plan {n} inv, drop, plan {n} fwd] panicked: {}", i, msg, n = n, h = n / 2), Json::Null),
+            Ok(f) => {
+                if f.len() != m || f.fft_direction() != d {
+                    rep.violate(k, format!("requested (len {}, {}) after dropping every earlier handle, but the transform reports (len {}, {})", m, dir_name(d), f.len(), dir_name(f.fft_direction())), Json::Null);
+                }
+                drop(f); // no handle survives the step: only the planner's own cache may keep the instance alive
+            }
+        }
+    }
+    rep.states += 1;
+}
+
 fn shared_sweep<T: Real>(pk: PK, nmax: usize, ascending: bool, rep: &mut Report) {
     let mut pl = match AnyPlanner::<T>::new(pk) {
         Some(p) => p,
@@ -274,6 +302,33 @@ pub fn run(ctx: &Ctx) -> i32 {
     for p in parts {
         rep.merge(p);
     }
+    // ---- part A3: huge lengths, re-planned after every handle was dropped
+    let huge: Vec<usize> = t.pick(vec![1 << 21, 1 << 22], vec![1 << 21, 3 << 21, 1 << 23, 5 << 21, 1 << 24]);
+    let mut hj: Vec<(PK, bool, usize)> = Vec::new();
+    for &n in &huge {
+        for pk in PK::DISTINCT {
+            for is32 in [true, false] {
+                hj.push((pk, is32, n));
+            }
+        }
+    }
+    let parts = par_map(&hj, |_, &(pk, is32, n)| {
+        let mut r = Report::new();
+        let t0 = std::time::Instant::now();
+        if is32 {
+            huge_replan::<f32>(pk, n, &mut r);
+        } else {
+            huge_replan::<f64>(pk, n, &mut r);
+        }
+        if std::env::var("VERIF_TIMING").is_ok() {
+            eprintln!("huge_replan {} {} n={} took {:.1}s", pk.name(), if is32 { "f32" } else { "f64" }, n, t0.elapsed().as_secs_f64());
+        }
+        r
+    });
+    for p in parts {
+        rep.merge(p);
+    }
+    rep.set("huge_replan_lengths", Json::Arr(huge.iter().map(|x| Json::Int(*x as i64)).collect()));
     // ---- part B: plan-only sweep
     let pmax: usize = t.pick(1 << 20, 1 << 22);
     let block = 8192;
@@ -338,7 +393,7 @@ pub fn run(ctx: &Ctx) -> i32 {
     rep.sample(Json::Str(key(PK::Scalar, "f64", FftDirection::Inverse, nmax, "plan_conv")));
     rep.sample(Json::Str(key(PK::Sse, "f64", FftDirection::Inverse, pmax - 1, "plan_only")));
     rep.rule = format!(
-        "shared-planner sweeps: one planner per (scalar/sse/avx, f32/f64) asked for every n in 0..={sh} in ascending and in descending order, both directions; construction: planners {{auto,scalar,sse,avx}} x {{f32,f64}} x {{fwd,inv}} x {{plan_fft, plan_fft_forward/inverse}} x every n in 0..={nmax} on a fresh planner (len() and fft_direction() must echo the request; n=0 accepts the empty buffer through all 4 entry points; n=1 is the identity on 5 values through all 4 entry points), plus {pl} computed pool lengths up to {ph}; plan-only (hook H4, nothing constructed): {{scalar,sse,avx}} x {{f32,f64}} x every n < {pmax}, following Rader (p-1) and Bluestein (inner) sub-plans, every plan must parse and multiply out to n and every AVX butterfly base named by a plan is then constructed once. Non-trivial: n >= 2.",
+        "huge lengths (2^21, 2^22; thorough 2^21..2^24) on one planner with every handle dropped between requests: plan, drop, plan again, other direction, half length, again; shared-planner sweeps: one planner per (scalar/sse/avx, f32/f64) asked for every n in 0..={sh} in ascending and in descending order, both directions; construction: planners {{auto,scalar,sse,avx}} x {{f32,f64}} x {{fwd,inv}} x {{plan_fft, plan_fft_forward/inverse}} x every n in 0..={nmax} on a fresh planner (len() and fft_direction() must echo the request; n=0 accepts the empty buffer through all 4 entry points; n=1 is the identity on 5 values through all 4 entry points), plus {pl} computed pool lengths up to {ph}; plan-only (hook H4, nothing constructed): {{scalar,sse,avx}} x {{f32,f64}} x every n < {pmax}, following Rader (p-1) and Bluestein (inner) sub-plans, every plan must parse and multiply out to n and every AVX butterfly base named by a plan is then constructed once. Non-trivial: n >= 2.",
         sh = shared_n,
         nmax = nmax,
         pl = pool.len(),
